@@ -567,4 +567,60 @@ def run (br : BR) (w : World) (exp : Exp) : List Step → List StepOut
     let o := step br w exp st
     o :: run br o.w o.exp rest
 
+/-! ## >>> additive section (slice `executorx`): `SyncWorkloadInformation` of the canary-style plane
+
+  Source: pkg/controller/batchrelease/control/canarystyle/control_plane.go  realCanaryController.SyncWorkloadInformation
+          pkg/util/workloads_utils.go                                       IsStable, IsPromoted, IsScaling, IsRevisionNotEqual
+
+  The plane detects **no rollback event** and ends in `WorkloadUnknownState` where the other planes say `WorkloadNormalState`;
+  the info it returns is a fresh `WorkloadInfo` that carries the canary's counters, the stable Deployment's replicas only with
+  the scaling event and its update revision only with the template-changed event. -/
+
+inductive SyncEvent where
+  | normal | gone | stillReconciling | replicasChanged | podTemplateChanged | unknown
+  deriving Repr, DecidableEq, Inhabited
+
+/-- the `util.WorkloadInfo` the canary-style plane hands to `syncStatusBeforeExecuting` -/
+structure SyncInfo where
+  /-- `Replicas` (set with the scaling event only) -/
+  replicas : Int
+  /-- `Status.UpdateRevision` = hash of this template (set with the template-changed event only) -/
+  updateRevision : Option Template
+  /-- `Status.UpdatedReplicas` = the canary Deployment's `status.replicas` -/
+  updated : Int
+  /-- `Status.UpdatedReadyReplicas` = the canary Deployment's `status.availableReplicas` -/
+  updatedReady : Int
+  deriving Repr, DecidableEq, Inhabited
+
+/-- `realCanaryController.SyncWorkloadInformation`.  `deleting` = the BatchRelease carries a deletionTimestamp;
+    `observedReplicas` / `observedUpdate` = `newStatus.ObservedWorkloadReplicas` / `newStatus.UpdateRevision`;
+    `hash` = `util.ComputeHash` of a pod template.  Result: plane state, error class of the call (`ok` = nil error,
+    `notFound` = the stable Deployment is gone), event, info. -/
+def planeSyncInfo (c : Cfg) (br : BR) (deleting : Bool) (observedReplicas : Int) (observedUpdate : String)
+    (hash : Template → String) (s : S) : S × Res × SyncEvent × Option SyncInfo :=
+  if deleting then (s, .ok, .normal, none) else     -- ignore the sync if the release plan is deleted
+  match buildStable c br s with
+  | (s, .fail .notFound) => (s, .notFound, .gone, none)
+  | (s, .fail r) => (s, r, .unknown, none)
+  | (s, .ok st) =>
+    match buildCanary c br s with
+    | (s, .fail .err) => (s, .err, .unknown, none)
+    | (s, .fail .panic) => (s, .panic, .unknown, none)
+    | (s, r) =>                                      -- found, or NotFound (ignored: `canaryInfo` stays nil)
+      let info : SyncInfo := match r with
+        | .ok cd => { replicas := 0, updateRevision := none, updated := cd.statusReplicas, updatedReady := cd.availableReplicas }
+        | .fail _ => { replicas := 0, updateRevision := none, updated := 0, updatedReady := 0 }
+      match st.replicas with
+      | none => (s, .panic, .unknown, none)          -- unreachable: `buildStable` parsed the object
+      | some R =>
+        if ¬ (st.observedGeneration ≥ st.generation) then (s, .ok, .stillReconciling, some info)
+        else if st.statusReplicas = st.updatedReplicas then (s, .ok, .normal, some info)      -- IsPromoted
+        else if observedReplicas ≠ -1 ∧ R ≠ observedReplicas then
+          (s, .ok, .replicasChanged, some { info with replicas := R })
+        else if observedUpdate ≠ "" ∧ hash st.template ≠ observedUpdate then
+          (s, .ok, .podTemplateChanged, some { info with updateRevision := some st.template })
+        else (s, .ok, .unknown, some info)
+
+/-! ## <<< end of the additive section (slice `executorx`) -/
+
 end RV.CtlCanary
